@@ -9,4 +9,5 @@ CONSTANTS
   BC <- SBC
   BBit <- SBBit
   BBase <- SBBase
+  BHas <- SBHas
   RekeyOp <- SRekeyOp
